@@ -1,10 +1,10 @@
 SPECIFICATION Spec
-CONSTANTS D = 2
-          NPre = 4
+CONSTANTS D = 3
+          NPre = 2
           NE = 4
-          EMin = 1
-          EMax = 2
-          Dirs = {"ltr", "rel"}
+          EMin = 0
+          EMax = 1
+          Dirs = {"rtl", "ltr"}
           Caps = {1, 2, 3, 99}
           Canon = TRUE
 INVARIANT ErrBound
